@@ -86,8 +86,8 @@ Proof. exact sem_try_map_reject. Qed.
 Example C01_example :
   let toks := [97; 98; 99]%N in
   let g := Then (Or (Just [98%N]) (Just [97%N])) (AndIs (Filter (PTokIn [98%N]) Any) (Not (Just [99%N]))) in
-  go no_quirks KRich toks (fun a b => (a, b)) 10 Emit g VUnit init_st
-    = (Ok (Some (VPair (VList [VTok 97%N]) (VTok 98%N))), mkSt 2 [] (Some (0, mkErr (0, 1) (REF [pTok 98%N] (Some 97%N)) [])) (ust_at toks 2)).
+  go no_quirks KRich toks (fun a b => (a, b)) 10 Emit g env0 init_st
+    = (Ok (Some (VPair (VList [VTok 97%N]) (VTok 98%N))), mkSt 2 [] (Some (0, mkErr (0, 1) (REF [pTok 98%N] (Some 97%N)) [])) (ust_at toks 2) []).
 Proof. vm_compute. reflexivity. Qed.
 
 Print Assumptions C01_accept_value_extent.
